@@ -136,6 +136,9 @@ func (e *Engine) checkProperty(prop, tier string, par int, writeLedger bool) int
 		return 2
 	}
 	e.known = kfs
+	if writeLedger {
+		e.tier = "thorough" // the ledger lists the obligations of both tiers; thorough-only ones are marked
+	}
 	rr := e.generate(prop, "")
 	extra := e.extraChecks(prop, tier)
 	rr.obls = append(rr.obls, extra.obls...)
@@ -147,7 +150,11 @@ func (e *Engine) checkProperty(prop, tier string, par int, writeLedger bool) int
 		for _, o := range rr.obls {
 			if ledgerKind(o.Kind) && !seen[o.base()] {
 				seen[o.base()] = true
-				names = append(names, o.base())
+				n := o.base()
+				if hasProp(o.Props, "thorough") || (o.fc != nil && o.fc.c != nil && o.fc.c.ThoroughOnly) {
+					n += " @thorough"
+				}
+				names = append(names, n)
 			}
 		}
 		sort.Strings(names)
@@ -210,6 +217,12 @@ func (e *Engine) checkProperty(prop, tier string, par int, writeLedger bool) int
 		gen[o.base()] = true
 	}
 	for _, l := range ledger {
+		if strings.HasSuffix(l, " @thorough") {
+			if tier != "thorough" {
+				continue
+			}
+			l = strings.TrimSuffix(l, " @thorough")
+		}
 		if !gen[l] {
 			addViolation(l+"#exists", nil, "ledger obligation was not generated (function or clause renamed, deleted, or its contract orphaned)")
 		}
